@@ -360,14 +360,7 @@ func c23start(root c23root) *c23sim {
 	return s
 }
 
-func (s *c23sim) settleNoClient() {
-	w := s.w
-	w.mu.Lock()
-	for w.receives < w.unsubs {
-		w.cond.Wait()
-	}
-	w.mu.Unlock()
-}
+func (s *c23sim) settleNoClient() { s.settle() }
 
 func (s *c23sim) close() {
 	if s.cl != nil {
